@@ -32,6 +32,13 @@ def phi_boundary():
              ngrams=[]),
         dict(args=[4, 2, 2, 0.3], S=1, mults=[3, 7], depth=2, thresholds=[None], keep=[0, 5],
              ngrams=[]),
+        # nearly empty WIDE sketches: 0 < phi * n_added() < 1, i.e. the default threshold is 0
+        dict(args=[4, 2, 2], S=1, mults=[1, 2], depth=3, thresholds=[None, 0], keep=[0, 5, 6],
+             ngrams=[]),
+        dict(args=[8, 1, 2], S=1, mults=[1], depth=6, thresholds=[None], keep=[0, 5, 6],
+             ngrams=[], saveload=False),
+        dict(args=[16, 2, 3, 0.05], S=2, mults=[1, 3], depth=3, thresholds=[None], keep=[0, 5],
+             ngrams=[], saveload=False),
     ]
 
 
@@ -52,7 +59,7 @@ def configs(tier, seed):
 
 
 def pool_size(tier):
-    return 8 if tier == "quick" else 16
+    return 11 if tier == "quick" else 16
 
 
 def task(arg):
